@@ -212,6 +212,11 @@ def case(ctx, x):
                 ev.case(common.chash([pop_hash, target, variant, strict]), nt, classes=classes, sample=sample)
                 if probs:
                     sig = "%s:%s" % (expected, c01.signature(probs))
+                    if cx and "complex-nonhead-part-errors-dropped" in ctx.open_sigs and expected != "accepted-optional":
+                        inst = pop["instances"][target[0]]
+                        head = min(p["ent"].lower() for p in inst["parts"])
+                        if inst["parts"][target[1]]["ent"].lower() != head and ctx.known("complex-nonhead-part-errors-dropped"):
+                            continue
                     if ctx.known(sig):
                         continue
                     raise Found({"what": "[%s %s %s%s] " % (kind, expected, "strict" if strict else "lenient", " complex-part" if cx else "") + "; ".join(probs[:3]),
